@@ -15,6 +15,7 @@ Line protocol of the C15 model (ordered-map spec + sstable block model).
 * `merge <sum|void> <keys/vals> …` — k-way merge, spec and model, with ordinal tables.
 * `index <hex file> <ords>` — the block-address store of a real file decoded by the model:
   `ord:start:end,…|block ids located for the ordinals` (`empty` for a ≤ 1-block file).
+* `bitpack <values> <widths>` — bytes `BitPacker::write`* + `flush` produce for the fields.
 * `shorter <left> <right>`, `pfxup <prefix>`, `lev <d> <query> <key>`, `cpl <a> <b>`, `lt <a> <b>`.
 -/
 namespace TantivyModel.Driver.C15
@@ -278,7 +279,11 @@ def handle : List String → String
       else
         let store := openStore ((indexBytes.take (indexBytes.length - 8)).drop fstLen)
         let addrs := store.all
-        s!"{",".intercalate (addrs.map (fun a => s!"{a.firstOrd}:{a.start}:{a.stop}"))}|{showNats (os.map store.locateOrd)}"
+        s!"{",".intercalate (addrs.map (fun a => s!"{a.firstOrd}:{a.start}:{a.stop}"))}|{showNats (os.map store.locateOrd)}|reenc={showBool store.reencodeOk}"
+    | _, _ => "bad-op"
+  | ["bitpack", vs, ws] =>
+    match valList vs, valList ws with
+    | some vs, some ws => if vs.length = ws.length then hexOfBytes (bitPack (vs.zip ws)) else "bad-op"
     | _, _ => "bad-op"
   | ["shorter", l, r] =>
     match bytesOfHex l, bytesOfHex r with
